@@ -27,6 +27,7 @@ func newScanner(r io.Reader) *scanner {
 // read reads the next rune from the buffered reader.
 // Returns the rune(0) if reached the end or error occurs.
 func (s *scanner) read() rune {
+	vhScan()
 	ch, _, err := s.r.ReadRune()
 	if err != nil {
 		return eof
